@@ -139,12 +139,18 @@ func ZZ_C14_S45() {
 	_, _, _ = w.sc.Commit() // version 2
 	// evidence: none / against A0 once / twice / against a stranger
 	evKind := zzverif.Choose("evidence", 4)
+	// the offender is A0 or A1 (A1 may also have missed the last block: slashing and
+	// the downtime rule then act on the same validator in one BeginBlock)
+	evTarget := 0
+	if (evKind == 1 || evKind == 2) && zzverif.Choose("evidence.against.a1", 2) == 1 {
+		evTarget = 1
+	}
 	var evs []abcitypes.Evidence
 	switch evKind {
 	case 1:
-		evs = []abcitypes.Evidence{zzEvidence(0)}
+		evs = []abcitypes.Evidence{zzEvidence(evTarget)}
 	case 2:
-		evs = []abcitypes.Evidence{zzEvidence(0), zzEvidence(0)}
+		evs = []abcitypes.Evidence{zzEvidence(evTarget), zzEvidence(evTarget)}
 	case 3:
 		evs = []abcitypes.Evidence{zzEvidence(2)}
 	}
@@ -170,10 +176,10 @@ func ZZ_C14_S45() {
 	bctx := zzBlockCtx(h, w.gov, w.accts, w.sc, votes, evs)
 	_, xerr := w.sc.BeginBlock(bctx)
 	zzverif.Assert(xerr == nil, "S45 BeginBlock succeeds")
-	// ---- expected slashing of A0
+	// ---- expected slashing of the offender
 	ratio := w.gov.SlashRatio()
 	for _, r := range w.stakes {
-		if r.to != 0 {
+		if r.to != evTarget {
 			continue
 		}
 		times := 0
